@@ -5,6 +5,7 @@ import (
 	"io"
 	"net/http"
 	"net/url"
+	"sync"
 
 	"github.com/thushan/olla/internal/core/domain"
 	"github.com/thushan/olla/internal/zzverif/gosym"
@@ -68,6 +69,48 @@ func VerifInspectorIsolation() {
 			same2 = gosym.And(same2, got2[i] == b2[i])
 		}
 		gosym.Assert(same2, "the second request's body is intact as well")
+	}
+	gosym.Reach("end")
+}
+
+
+// VerifInspectorConcurrent: G requests pass through one BodyInspector concurrently, each goroutine
+// inspecting its own request and then reading back (as the proxy engine would) the body it will
+// forward, under every interleaving of the pool's Get/Put and the readers' steps: every request
+// still forwards byte-for-byte what its own client sent.
+func VerifInspectorConcurrent() {
+	n, G := gosym.Param("N"), gosym.Param("G")
+	bi, err := NewBodyInspector(zzLog{})
+	gosym.Assert(err == nil, "inspector can be built")
+	reqs := make([]*http.Request, G)
+	sent := make([][]byte, G)
+	got := make([][]byte, G) // private slot per goroutine
+	for g := 0; g < G; g++ {
+		sent[g] = gosym.Bytes("body", n)
+		reqs[g] = &http.Request{Method: "POST", URL: &url.URL{Path: "/v1/chat/completions"}, Header: http.Header{"Content-Type": {"application/json"}},
+			Body: &zzBodyReader{data: append([]byte{}, sent[g]...)}, ContentLength: int64(n)}
+	}
+	var wg sync.WaitGroup
+	wg.Add(G)
+	for g := 0; g < G; g++ {
+		g := g
+		go func() {
+			defer wg.Done()
+			p := domain.NewRequestProfile("/v1/chat/completions")
+			if bi.Inspect(context.Background(), reqs[g], p) != nil {
+				return
+			}
+			gosym.Yield() // the request waits its turn before the engine forwards it
+			got[g], _ = io.ReadAll(reqs[g].Body)
+		}()
+	}
+	wg.Wait()
+	for g := 0; g < G; g++ {
+		same := len(got[g]) == n
+		for i := 0; i < len(got[g]) && i < n; i++ {
+			same = gosym.And(same, got[g][i] == sent[g][i])
+		}
+		gosym.Assert(same, "C01: under concurrency every request forwards byte-for-byte the body its own client sent")
 	}
 	gosym.Reach("end")
 }
